@@ -3,7 +3,8 @@
 From Coq Require Import List Arith.
 From GV.lib Require Import Semiring BigSum.
 From GV.model Require Import Linear Blocks.
-From GV.proofs Require Import LehmannProof ClosureExtra BlockSolver.
+From GV.gen Require Import Gen_Linear.
+From GV.proofs Require Import LehmannProof ClosureExtra BlockSolver GenLinearBridge.
 Import ListNotations.
 
 (* Lehmann/Kleene elimination (WeightedGraph._closure) computes, over every star semiring on which the
@@ -69,3 +70,23 @@ Theorem C15_scc_checker_sound : forall (S : StarSR) (nodes : list nat) (bs : lis
   (forall b i k, In b bs -> In i b -> In k b -> reachN b (adj_bool b A) i k).
 Proof. intros; apply scc_check_sound; assumption. Qed.
 Print Assumptions C15_scc_checker_sound.
+
+(* The arithmetic of WeightedGraph._closure and of the block solvers, regenerated from linear.py on
+   every run (factor order included), is the arithmetic of the models. *)
+Theorem C15_code_elimination_is_model : forall (S : StarSR) (nodes : list nat) (j : nat) (old : mat S),
+  elim_step nodes j old =
+  tabulate nodes (fun i k => gen_elim_upd S (mget old i k) (mget old i j) (sstar S (mget old j j)) (mget old j k)).
+Proof. intros; apply gen_elim_step_model. Qed.
+Print Assumptions C15_code_elimination_is_model.
+
+Theorem C15_code_solvers_are_model : forall (S : StarSR) (allnodes : list nat) (A : mat S) (b sol : vec S) (block : list nat),
+  solve_left_block S allnodes A b sol block =
+    (let B := block_closure block A in
+     let enter := map (fun j => (j, sadd (vget b j) (bsum allnodes (fun i => gen_left_enter S (vget sol i) (mget A i j))))) block in
+     sol ++ flat_map (fun e => map (fun k => (k, gen_left_complete S (snd e) (mget B (fst e) k))) block) enter) /\
+  solve_right_block S allnodes A b sol block =
+    (let B := block_closure block A in
+     let enter := map (fun j => (j, sadd (vget b j) (bsum allnodes (fun k => gen_right_enter S (mget A j k) (vget sol k))))) block in
+     sol ++ flat_map (fun e => map (fun i => (i, gen_right_complete S (mget B i (fst e)) (snd e))) block) enter).
+Proof. intros; split; [apply gen_solve_left_block_model|apply gen_solve_right_block_model]. Qed.
+Print Assumptions C15_code_solvers_are_model.
